@@ -133,6 +133,7 @@ type Run struct {
 	inputs   []inputVar // named inputs for model projection
 	callN, qctr, noDef, probing int
 	pureInsts  map[string]*pureInst
+	guards     map[string]*Term
 	tracker    *heapTracker
 	trackState *State
 }
@@ -190,11 +191,24 @@ func (r *Run) oblige(st *State, kind, name string, tags []string, goal Term, src
 		b.WriteString("\n")
 	}
 	fmt.Fprintf(&b, "(assert %s)\n(assert (not %s))\n", st.pc.S, goal.S)
-	o := &Obligation{Name: name, Kind: kind, Tags: tags, Func: r.top.String(), Src: src, Script: b.String(), Expect: "unsat", Claimed: claimed}
+	posS := ""
 	if pos.IsValid() {
 		p := r.eng.prog.Fset.Position(pos)
-		o.Pos = fmt.Sprintf("%s:%d", p.Filename, p.Line)
+		posS = fmt.Sprintf("%s:%d", p.Filename, p.Line)
 	}
+	if g, isKnown := r.guards[name]; isKnown {
+		// known finding: the failing class G is reported as known; outside G the obligation must still hold
+		kscript := b.String()
+		if g != nil {
+			kscript += fmt.Sprintf("(assert %s)\n", g.S)
+			b.WriteString(fmt.Sprintf("(assert (not %s))\n", g.S))
+		}
+		r.obls = append(r.obls, &Obligation{Name: name + "?known", Kind: "known-finding", Tags: tags, Func: r.top.String(), Src: src, Script: kscript, Expect: "unsat", Claimed: claimed, Pos: posS})
+		if g == nil {
+			return
+		}
+	}
+	o := &Obligation{Name: name, Kind: kind, Tags: tags, Func: r.top.String(), Src: src, Script: b.String(), Expect: "unsat", Claimed: claimed, Pos: posS}
 	r.obls = append(r.obls, o)
 }
 
